@@ -115,6 +115,7 @@ inductive Route where
   | fail         -- a handler returns an error (plain or HandlerError)
   | proxyOk      -- reverse_proxy, the round trip succeeds
   | proxyErr     -- reverse_proxy, the round trip fails
+  | fcgiErr      -- reverse_proxy with the fastcgi transport: its own "roundtrip" debug entry, then the dial fails
 deriving DecidableEq, Repr
 
 structure Scn where
@@ -151,9 +152,13 @@ def proxyEntries (s : Scn) : List Entry :=
      ⟨str "http.handlers.reverse_proxy", str "headers", loggableHeader s.tUp s.creds⟩]
   | .proxyErr =>
     [⟨str "http.handlers.reverse_proxy", str "request>headers", loggableHeader s.tOut s.creds⟩]
+  | .fcgiErr =>
+    -- fastcgi.go:141  `LoggableHTTPRequest{Request: r, ShouldLogCredentials: logCreds}` logged before dialing
+    [⟨str "http.reverse_proxy.transport.fastcgi", str "request>headers", loggableHeader s.tOut s.creds⟩,
+     ⟨str "http.handlers.reverse_proxy", str "request>headers", loggableHeader s.tOut s.creds⟩]
   | _ => []
 
-def failed (s : Scn) : Bool := s.route = .fail || s.route = .proxyErr
+def failed (s : Scn) : Bool := s.route = .fail || s.route = .proxyErr || s.route = .fcgiErr
 
 def errorEntries (s : Scn) : List Entry :=
   if failed s then
